@@ -5,7 +5,7 @@ import json
 import random
 import sys
 
-from common import (Build, MachineryError, Verdict, make_cfg, run_children,
+from common import (one_case, Build, MachineryError, Verdict, make_cfg, run_children,
                     run_tlc, seed, shard, tla_bool, NCPU)
 
 IB3 = {'0': [], '1': [], '2': [1], '3': []}
@@ -85,11 +85,18 @@ def main(pid, tier):
         'specification orders/implied sets equal what current bases define '
         '(C02/C03)', 'bounded class shapes: two-class, chain+sibling, '
         'diamond, mixin; 3 interfaces; <= 3 instances']
+    with Build() as build:
+        exhaustive = run(pid, tier, v, build)
+    v.cov['exhaustive'] = exhaustive
+    return v.finish()
+
+
+def run(pid, tier, v, build, plan=None):
     exhaustive = True
     budget = 2500 if tier == 'quick' else 10 ** 9
-    with Build() as build:
+    if True:
         for (shape, depth, args, wsup, wcp, ops, kind, num) in \
-                PLAN[(pid, tier)]:
+                (plan or PLAN)[(pid, tier)]:
             pyb, cof, nc, no, pybd, cofd = SHAPES[shape]
             consts = {'NI': 3, 'IBases': '<-IB_3', 'NC': nc,
                       'PyBases': '<-' + pyb, 'NO': no, 'ClassOf': '<-' + cof,
@@ -148,7 +155,8 @@ def main(pid, tier):
             for implv in ('c', 'py'):
                 for si, sh in enumerate(shard(cases, NCPU // 2)):
                     jobs.append((implv, {
-                        'props': [pid], 'ibases': IB3, 'pybases': pybd,
+                        'props': [pid] if pid != 'C10' else
+                        ['C01', 'C13', 'C19'], 'ibases': IB3, 'pybases': pybd,
                         'classof': cofd, 'cases': sh, 'shard': si,
                         'seed': seed() * 100 + si}))
             for (implv, job), r in zip(jobs, run_children(
@@ -163,13 +171,23 @@ def main(pid, tier):
                         pid, m['impl'], m['what'], json.dumps(m['expected']),
                         json.dumps(m['got']),
                         json.dumps(m['ctx'], sort_keys=True)[:1500])
-                    v.violation(sig, m)
+                    v.violation(sig, m, one_case(
+                        'replay_declarations.py', implv, job, m))
             v.cov['traces_validated_against_impl'] += 2 * len(cases)
             if cases:
                 v.sample({'config': name, 'behaviour': [
                     s['act'] for s in cases[-1]['steps']]})
-    v.cov['exhaustive'] = exhaustive
-    return v.finish()
+    return exhaustive
+
+
+C10_PLAN = {
+    ('C10', 'quick'): [('Mixin', 12, 'Args12', True, True, 'AllOps', 'sim',
+                        300)],
+    ('C10', 'thorough'): [('Mixin', 20, 'Args12', True, True, 'AllOps', 'sim',
+                           5000),
+                          ('Diamond', 20, 'Args12', True, True, 'AllOps',
+                           'sim', 5000)],
+}
 
 
 if __name__ == '__main__':
